@@ -240,6 +240,7 @@ class Hist:
             add(impl.DRAFT_FC[tag], "fc")
         self.user_dicts = []   # addresses of the caller's own dicts
         self.passed = set()    # … those that were passed as `validators=` to create / extend
+        self.pending = []      # directed follow-up operations
 
     def add(self, obj, kind, aux=None):
         self.heap.append(obj)
@@ -484,14 +485,22 @@ def gen_legacy(r):
 
 
 def gen_kwarg(r, h, allow_empty):
-    if h.user_dicts and r.random() < 0.35:
-        return ["ref", r.choice(h.user_dicts)]
+    if h.user_dicts and r.random() < 0.4:
+        d = r.choice(h.user_dicts)
+        if r.random() < 0.6:
+            # directed: the caller updates the dict it has just passed (a missing copy shows here)
+            h.pending.append(["userSet", d, r.choice(KW_KEYS), r.choice(["fail:x", "fail:y", "fail:z", "never"])])
+        return ["ref", d]
     if allow_empty and r.random() < 0.35:
         return ["lit", []]
     return ["lit", gen_kws(r, h)]
 
 
 def gen_op(r, h):
+    if h.pending and r.random() < 0.5:
+        return h.pending.pop(0)
+    if not h.user_dicts and r.random() < 0.08:
+        return ["userDict", gen_kws(r, h)]
     k = r.randrange(100)
     tcs, clss, fcs = h.of_kind("tc"), h.of_kind("cls"), h.of_kind("fc")
     if k < 8:
@@ -535,7 +544,7 @@ def gen_op(r, h):
         return ["userDict", gen_kws(r, h)]
     passed = [d for d in h.user_dicts if d in h.passed]
     d = r.choice(passed) if passed and r.random() < 0.7 else r.choice(h.user_dicts)
-    return ["userSet", d, r.choice(KW_KEYS), r.choice(["fail:x", "fail:z", "never", "type"])]
+    return ["userSet", d, r.choice(KW_KEYS), r.choice(["fail:x", "fail:y", "fail:z", "never"])]
 
 
 OP_LABEL = {"redefine": "redefine", "redefineMany": "redefine_many", "remove": "remove", "extend": "extend",
@@ -640,7 +649,7 @@ def one_history(ctx, length):
             if got != want:
                 q, x, y = first_diff(qs, want, got)
                 if metas_same:
-                    res.fail("derive:class-changed:" + OP_LABEL[op[0]],
+                    res.fail(change_sig(h, i, op),
                              "class #%d validates %r differently after %s: %s, was %s" % (i, q, op[0], y, x), case, op=op, obj=i)
                 else:
                     # `cls(schema)` seeds its resolver from `meta_schemas`, which this operation re-pointed
